@@ -141,8 +141,6 @@ def ref_apply(
         # preferred-engine options never change meaning (C03).  With transfer=True the result may live in
         # the preferred engine (if backtracking did not place the operation upstream): follow the observation.
         _, inner, pref, _bt, do_transfer, _req = op
-        if inner[0] == "join":
-            pref = scen_operand(val, inner[1], scen).eng
         # an engine-restricted expression is acceptable if the preferred engine supports it (whether the
         # call then succeeds by backtracking/transfer or raises EngineError is judged on the real tree)
         _ALSO_ALLOWED.append(scen.kind(pref))
